@@ -103,3 +103,42 @@ theorem safe_refused_unchanged (sys : Sys A S O G W) (hs : sys.Sound) (steps : L
   (run_safe sys hs a steps [] false s h (by simp)).2 rfl e he
 
 end Nix.Guarded
+
+namespace Nix.Guarded
+
+variable {A S O G W : Type} [DecidableEq G]
+
+/-- **functions with a protected section**: if the part before the `try` obeys the discipline, the `except` clause
+restores what readers saw whenever the protected body refuses, and nothing after the section can refuse, then a
+refused call ends in a file readers cannot tell from the one it started with — for every sound system -/
+theorem fn_refused_unchanged (sys : Sys A S O G W) (hs : sys.Sound) (fn : Fn G W) (a : A) (s : S)
+    (hpre : safe sys fn.pre = true)
+    (hrest : ∀ s1 s2 e, run sys a fn.pre s = (s1, none) → run sys a fn.body s1 = (s2, some e) →
+      sys.obs (execAll sys a fn.handler s2) = sys.obs s)
+    (hpost : ∀ s1 s2, run sys a fn.pre s = (s1, none) → run sys a fn.body s1 = (s2, none) →
+      (run sys a fn.post s2).2 = none)
+    (e : Err) (he : (runFn sys a fn s).2 = some e) : sys.obs (runFn sys a fn s).1 = sys.obs s := by
+  unfold runFn at he ⊢
+  cases h1 : run sys a fn.pre s with
+  | mk s1 o1 =>
+    cases o1 with
+    | some e1 =>
+      simp only [h1] at he ⊢
+      have := safe_refused_unchanged sys hs fn.pre hpre a s e1 (by rw [h1])
+      rw [h1] at this
+      exact this
+    | none =>
+      simp only [h1] at he ⊢
+      cases h2 : run sys a fn.body s1 with
+      | mk s2 o2 =>
+        cases o2 with
+        | some e2 =>
+          simp only [h2] at he ⊢
+          exact hrest s1 s2 e2 h1 h2
+        | none =>
+          simp only [h2] at he ⊢
+          have := hpost s1 s2 h1 h2
+          rw [this] at he
+          exact absurd he (by simp)
+
+end Nix.Guarded
